@@ -170,6 +170,27 @@ var (
 
 const c09NumaAnno = `{"numaNodeResources":[{"node":0}]}`
 
+// NUMA ids that are no zone of the (two-zone) node are ignored, "since it cannot be successfully bind on the node either":
+// a pod that lists only such an id is shared by all zones like a pod without NUMA allocation, a pod that lists zone 0 and
+// such an id is charged to zone 0 entirely (seed C09-8 counted the invalid ids in the divisor)
+const (
+	c09NumaInvalidOnly = 2 // annotation lists node 3 only
+	c09NumaZone0AndBad = 3 // annotation lists nodes 0 and 2
+)
+
+var c09NumaAnnos = map[int]string{0: c09NumaAnno, c09NumaInvalidOnly: `{"numaNodeResources":[{"node":3}]}`, c09NumaZone0AndBad: `{"numaNodeResources":[{"node":0},{"node":2}]}`}
+
+// c09NumaEff: the zone the pod's consumption belongs to by that rule (-1: shared by all zones)
+func c09NumaEff(n int) int {
+	switch n {
+	case c09NumaInvalidOnly:
+		return -1
+	case c09NumaZone0AndBad:
+		return 0
+	}
+	return n
+}
+
 var c09PodNames = [...]string{"p0", "p1", "p2", "p3"}
 
 func c09NodeName(c *c09Case) string {
@@ -298,7 +319,7 @@ func c09Build(c *c09Case) (*configuration.ColocationStrategy, *corev1.Node, *cor
 			pod.Labels = map[string]string{extension.LabelPodQoS: p.QoS}
 		}
 		if p.Numa >= 0 {
-			pod.Annotations = map[string]string{extension.AnnotationResourceStatus: c09NumaAnno}
+			pod.Annotations = map[string]string{extension.AnnotationResourceStatus: c09NumaAnnos[p.Numa]}
 		}
 		if v, ok := c09PrioVal[p.Prio]; ok {
 			pv := v
@@ -487,11 +508,11 @@ func c09Reference(c *c09Case) c09Ref {
 			}
 			for pi := 0; pi < 3; pi++ {
 				r.hp[x][pi] += ch[pi] * u
-				if p.Numa < 0 {
+				if z := c09NumaEff(p.Numa); z < 0 {
 					r.zhp[0][x][pi] += ch[pi] * u
 					r.zhp[1][x][pi] += ch[pi] * u
 				} else {
-					r.zhp[p.Numa][x][pi] += 2 * ch[pi] * u
+					r.zhp[z][x][pi] += 2 * ch[pi] * u
 				}
 			}
 		}
@@ -1425,7 +1446,7 @@ func TestVerifC09Calc(t *testing.T) {
 			c09CapDim(sp, []int64{0})
 			c09EnvDims(sp, []int64{0, 3}, []int64{0}, []int64{0, 5}, []int64{0, 4}, []string{"", "prod"}, []int64{0})
 			sp.addPods(2, c09PodAlpha{prio: []string{"prod", "batch", "none"}, qos: []string{"LSE", "LS"},
-				phase: []string{"Running", "Succeeded"}, numa: []int64{-1, 0}, req: []int64{0, 1, 2}, use: []int64{-1, 1, 3}})
+				phase: []string{"Running", "Succeeded"}, numa: []int64{-1, 0, c09NumaInvalidOnly, c09NumaZone0AndBad}, req: []int64{0, 1, 2}, use: []int64{-1, 1, 3}})
 			c09StrategyDims(sp, c09Cross(c09CPUPols, c09MemPols), c09Reclaim2, []int64{-1, 30})
 			c09Run(env, sp)
 			// the 100-core / 200 G node (non-integral cores per unit, decimal bytes)
@@ -1434,13 +1455,13 @@ func TestVerifC09Calc(t *testing.T) {
 			c09CapDim(sp, []int64{1})
 			c09EnvDims(sp, []int64{0, 3}, []int64{0}, []int64{0, 5}, []int64{0, 4}, []string{"", "prod"}, []int64{0})
 			sp.addPods(2, c09PodAlpha{prio: []string{"prod", "batch"}, qos: []string{"LSE", "LS"},
-				phase: []string{"Running", "Succeeded"}, numa: []int64{-1, 0}, req: []int64{0, 1, 2}, use: []int64{-1, 1, 3}})
+				phase: []string{"Running", "Succeeded"}, numa: []int64{-1, 0, c09NumaInvalidOnly, c09NumaZone0AndBad}, req: []int64{0, 1, 2}, use: []int64{-1, 1, 3}})
 			c09StrategyDims(sp, c09PolPairs, c09Reclaim2, []int64{-1, 30})
 		} else {
 			c09CapDim(sp, []int64{0})
 			c09EnvDims(sp, []int64{0, 3}, []int64{0}, []int64{0, 5}, []int64{0, 4}, []string{"", "prod"}, []int64{0})
 			sp.addPods(2, c09PodAlpha{prio: []string{"prod", "batch"}, qos: []string{"LSE", "LS"},
-				phase: []string{"Running"}, numa: []int64{-1, 0}, req: []int64{0, 2}, use: []int64{-1, 1, 3}})
+				phase: []string{"Running"}, numa: []int64{-1, 0, c09NumaInvalidOnly, c09NumaZone0AndBad}, req: []int64{0, 2}, use: []int64{-1, 1, 3}})
 			c09StrategyDims(sp, c09PolPairs, c09Reclaim2, []int64{-1, 30})
 		}
 		c09Run(env, sp)
